@@ -1,6 +1,7 @@
 """C11 — aggregations equal their textbook definitions over the non-null elements. Engine K part
 (exact / integer-shaped aggregations, permutation invariance, fold protocols)."""
 import kani_engine
+from mir_engine import props_m
 
 RULE = ("one Kani harness per (aggregation family, iterator source, length block); the null mask, all element values, the "
         "searched value, the bool mask and min_periods are kani::any(); the oracle is the textbook definition written as "
@@ -10,7 +11,7 @@ RULE = ("one Kani harness per (aggregation family, iterator source, length block
         "element, mask excluding a valid element, result null by min_periods) are SATISFIED")
 
 MANIFEST = {
-    "engine": "K",
+    "engine": "K+M",
     "technique": "bounded model checking (Kani/CBMC, SAT) of the exact aggregations of AggBasic / AggValidBasic / AggValidExt and of "
                  "the null-skipping folds against definitions evaluated in the harness, per iterator source and length",
     "design_ref": "DESIGN.md 3/C11",
@@ -52,4 +53,19 @@ def check(v, tier, opts):
     v.assumptions.append("null-unaware min / max / argmin / argmax on floats: checked on NaN-free series in the main harnesses; series "
                          "containing NaN are the isolated c11_plain_nan_* harnesses")
     kani_engine.decide(v, "C11", tier, opts)
-    return v.finish(RULE)
+    only = opts.get("only")
+    if not only or only.startswith("v"):
+        props_m.c11_m(v, tier, opts)     # Engine M part (moment formulas in exact real arithmetic)
+    return v.finish(RULE + M_RULE)
+
+
+M_RULE = ("; Engine M: vmean, vmean_var, vvar, vstd, vcov, vcorr_pearson executed from the MIR of tea-core per (length, min_periods, null "
+          "mask(s)) with the fold protocol unrolled; z3 asked for real inputs where null flag or value differ from the textbook definition "
+          "over the (pairwise-complete) valid elements; counterexamples replayed natively")
+MANIFEST["technique"] += "; MIR->SMT symbolic execution of the one-pass moment formulas decided by z3 against textbook definitions"
+MANIFEST["level_text"] += ("; z3 decides for all real inputs (length <= 5 quick / 6 thorough, min_periods 0..=len+1, null masks) that mean, sample "
+                           "variance, standard deviation, covariance and Pearson correlation equal their definitions and are null exactly "
+                           "below max(min_periods, 2) observations (1 for the mean) or at the variance floor (correlation)")
+MANIFEST["level_note"] += ("; Engine M: fold protocol (c11_fold_protocol_* harnesses), exact real arithmetic, |x|<=100; aggregation forms of "
+                           "vskew / vkurt outside the claim (nlsat timeouts on their exact-zero rescaling test; rolling forms decided in C01)")
+READY = True
